@@ -76,10 +76,11 @@ func (nopL) After(context.Context, api.Module, api.FunctionDefinition, []uint64)
 func (nopL) Abort(context.Context, api.Module, api.FunctionDefinition, error)    {}
 
 type world struct {
-	ctx  context.Context
-	rt   wazero.Runtime
-	mods map[string]api.Module
-	cms  map[string]wazero.CompiledModule
+	ctx   context.Context
+	cache wazero.CompilationCache
+	rt    wazero.Runtime
+	mods  map[string]api.Module
+	cms   map[string]wazero.CompiledModule
 }
 
 func newWorld(engine string, listeners bool) (*world, error) {
@@ -91,7 +92,8 @@ func newWorld(engine string, listeners bool) (*world, error) {
 	if engine == "compiler" {
 		cfg = wazero.NewRuntimeConfigCompiler()
 	}
-	w := &world{ctx: ctx, rt: wazero.NewRuntimeWithConfig(ctx, cfg), mods: map[string]api.Module{}, cms: map[string]wazero.CompiledModule{}}
+	cache := wazero.NewCompilationCache()
+	w := &world{ctx: ctx, cache: cache, rt: wazero.NewRuntimeWithConfig(ctx, cfg.WithCompilationCache(cache)), mods: map[string]api.Module{}, cms: map[string]wazero.CompiledModule{}}
 	return w, w.inst("A")
 }
 
@@ -199,6 +201,10 @@ func runOne(id int, raw json.RawMessage) common.Result {
 		case "closec":
 			if destructive && w.cms[a.I] != nil {
 				_ = w.cms[a.I].Close(w.ctx)
+			}
+		case "cacheclose":
+			if destructive {
+				_ = w.cache.Close(w.ctx)
 			}
 		case "drop":
 			if destructive {
